@@ -40,7 +40,7 @@ for l in open(os.path.join(V, "properties.jsonl")):
     pid = d["id"]
     prop = f"{pid} — {d['title']}\n\n{d['statement']}\n\nQuantification: {d['quantifier']['text']}"
     t = tmpl.replace("{PROP}", prop).replace("{WT}", f"/tmp/wt/{pid}").replace("{OUT}", f"{out}/{pid}")
-    items = [" - " + json.load(open(m))["needs_to_manifest"][:220] for m in sorted(glob.glob(os.path.join(V, f"seeded/{pid}?/meta.json")))]
+    items = [" - " + json.load(open(m))["needs_to_manifest"][:220] for m in sorted(glob.glob(os.path.join(V, f"seeded/{pid}*/meta.json")))]
     avoid = ("Other people have already produced changes with the following triggers/mechanisms for this property; yours must be DIFFERENT from all of them "
              "(different code site or different kind of fault, different trigger):\n" + "\n".join(items) + "\n" + EXTRA.get(pid, "") + ALSO + "\n\n")
     k = t.index("Task: produce TWO")
